@@ -1,7 +1,176 @@
-import Atomman.Prelude
-open Atomman
+/-
+  C02 driver — one request line, one reply line; numbers are exact rationals.
 
-/-- stub: replaced when the C02 model is built. -/
-def handleC02 (_toks : List String) : String := err "op"
+  arr  dvect|dmag2|full px py pz <vects 9> n0 n1 <pos0 3·n0> <pos1 3·n1>
+        dvect → 3·n values; dmag2 → n squared distances;
+        full  → per pair `dx dy dz dmag2 margin` (margin `-` when every candidate equals the result)
+        err:value on incompatible lengths
+  sys  dvect|dmag2 natoms px py pz <vects 9> <pos 3·natoms> SEL SEL
+        SEL := I i | S a b c (`_` = None) | L k i₁…i_k | P k <3·k values>
+        reply `sq …` (the len==1 squeeze) or `arr k …`; err:type / err:value / err:undefined
+  disp <box_reference> n0 n1 px py pz <vects0 9> px py pz <vects1 9> <pos0 3·n0> <pos1 3·n1>
+        3·n values; err:value for different atom counts or an unknown reference
+  slice n a b c        → the expanded indices (for checking `sliceIndices` against python)
+-/
+import Atomman.C02
+open Atomman Atomman.C02
+
+namespace C02Drv
+
+abbrev P (α : Type) := List String → Option (α × List String)
+
+def tok : P String
+  | [] => none
+  | t :: r => some (t, r)
+
+def rat : P Rat := fun l => match l with
+  | [] => none
+  | t :: r => (parseRat? t).map (·, r)
+
+def nat : P Nat := fun l => match l with
+  | [] => none
+  | t :: r => t.toNat?.map (·, r)
+
+def int : P Int := fun l => match l with
+  | [] => none
+  | t :: r => t.toInt?.map (·, r)
+
+def optInt : P (Option Int) := fun l => match l with
+  | [] => none
+  | "_" :: r => some (none, r)
+  | t :: r => t.toInt?.map (fun i => (some i, r))
+
+def bool : P Bool := fun l => match l with
+  | [] => none
+  | t :: r => (parseBool? t).map (·, r)
+
+def many {α : Type} (p : P α) : Nat → P (List α)
+  | 0 => fun l => some ([], l)
+  | k + 1 => fun l => do
+    let (a, l) ← p l
+    let (as, l) ← many p k l
+    pure (a :: as, l)
+
+def v3 : P (V3 Rat) := fun l => do
+  let (x, l) ← rat l
+  let (y, l) ← rat l
+  let (z, l) ← rat l
+  pure (⟨x, y, z⟩, l)
+
+def m3 : P (M3 Rat) := fun l => do
+  let (a, l) ← v3 l
+  let (b, l) ← v3 l
+  let (c, l) ← v3 l
+  pure (⟨a, b, c⟩, l)
+
+def pbc : P (Bool × Bool × Bool) := fun l => do
+  let (x, l) ← bool l
+  let (y, l) ← bool l
+  let (z, l) ← bool l
+  pure ((x, y, z), l)
+
+def sel : P (Sel Rat) := fun l => do
+  let (k, l) ← tok l
+  match k with
+  | "I" => let (i, l) ← int l; pure (.idx i, l)
+  | "S" =>
+    let (a, l) ← optInt l
+    let (b, l) ← optInt l
+    let (c, l) ← optInt l
+    pure (.slice a b c, l)
+  | "L" =>
+    let (n, l) ← nat l
+    let (is, l) ← many int n l
+    pure (.list is, l)
+  | "P" =>
+    let (n, l) ← nat l
+    let (ps, l) ← many v3 n l
+    pure (.pos ps, l)
+  | _ => none
+
+def showV3s (l : List (V3 Rat)) : String := showRats (l.flatMap V3.toList)
+
+def showSq (r : Bool × List String) : String :=
+  if r.1 then " ".intercalate ("sq" :: r.2) else " ".intercalate ("arr" :: toString r.2.length :: r.2)
+
+def handleArr (l : List String) : Option String := do
+  let (kind, l) ← tok l
+  let ((px, py, pz), l) ← pbc l
+  let (v, l) ← m3 l
+  let (n0, l) ← nat l
+  let (n1, l) ← nat l
+  let (pos0, l) ← many v3 n0 l
+  let (pos1, l) ← many v3 n1 l
+  if l ≠ [] then none else
+  match kind with
+  | "dvect" => pure (match dvectArr v px py pz pos0 pos1 with
+      | some r => showV3s r
+      | none => err "value")
+  | "dmag2" => pure (match dmag2Arr v px py pz pos0 pos1 with
+      | some r => showRats r
+      | none => err "value")
+  | "full" => pure (match broadcast pos0 pos1 with
+      | some prs => " ".intercalate (prs.map fun pq =>
+          let d := dvect v px py pz pq.1 pq.2
+          let m := dmag2 v px py pz pq.1 pq.2
+          let g := match tieMargin v px py pz pq.1 pq.2 with
+            | some e => showRat e
+            | none => "-"
+          showRats (d.toList ++ [m]) ++ " " ++ g)
+      | none => err "value")
+  | _ => none
+
+def handleSys (l : List String) : Option String := do
+  let (kind, l) ← tok l
+  let (n, l) ← nat l
+  let ((px, py, pz), l) ← pbc l
+  let (v, l) ← m3 l
+  let (atoms, l) ← many v3 n l
+  let (s0, l) ← sel l
+  let (s1, l) ← sel l
+  if l ≠ [] then none else
+  match kind with
+  | "dvect" => pure (match sysDvect atoms v px py pz s0 s1 with
+      | .ok r => showSq (r.1, r.2.flatMap fun p => p.toList.map showRat)
+      | .error e => err e)
+  | "dmag2" => pure (match sysDmag2 atoms v px py pz s0 s1 with
+      | .ok r => showSq (r.1, r.2.map showRat)
+      | .error e => err e)
+  | _ => none
+
+def handleDisp (l : List String) : Option String := do
+  let (ref, l) ← tok l
+  let (n0, l) ← nat l
+  let (n1, l) ← nat l
+  let ((px0, py0, pz0), l) ← pbc l
+  let (v0, l) ← m3 l
+  let ((px1, py1, pz1), l) ← pbc l
+  let (v1, l) ← m3 l
+  let (pos0, l) ← many v3 n0 l
+  let (pos1, l) ← many v3 n1 l
+  if l ≠ [] then none else
+  pure (match displacement ⟨v0, px0, py0, pz0, pos0⟩ ⟨v1, px1, py1, pz1, pos1⟩ ref with
+    | .ok r => showV3s r
+    | .error e => err e)
+
+def handleSlice (l : List String) : Option String := do
+  let (n, l) ← nat l
+  let (a, l) ← optInt l
+  let (b, l) ← optInt l
+  let (c, l) ← optInt l
+  if l ≠ [] then none else
+  pure (match sliceIndices n a b c with
+    | some ks => " ".intercalate ("ok" :: ks.map toString)
+    | none => err "value")
+
+end C02Drv
+
+def handleC02 (toks : List String) : String :=
+  match toks with
+  | "arr" :: r => (C02Drv.handleArr r).getD (err "format")
+  | "sys" :: r => (C02Drv.handleSys r).getD (err "format")
+  | "disp" :: r => (C02Drv.handleDisp r).getD (err "format")
+  | "slice" :: r => (C02Drv.handleSlice r).getD (err "format")
+  | _ => err "op"
 
 def main : IO Unit := runDriver handleC02
